@@ -527,3 +527,42 @@ Proof.
         repeat match type of H with context [andthen ?a _] => destruct a; cbn [andthen] in H; [discriminate|] end.
         destruct (check_signature sym_verify [] (bind_profile ks (c_iss c)) t bytes); discriminate.
 Qed.
+
+(* ---------- non-vacuity: concrete inputs meeting the theorems' hypotheses ---------- *)
+Definition ex_key : jwk := mkJwk "k1" "sig" KRsa 0.
+Definition ex_key2 : jwk := mkJwk "" "" KRsa 1.
+Definition ex_entry : sigentry := mkSig "RS256" "k1" "{""alg"":""RS256""}" (SigBy 0 "RS256" "{""alg"":""RS256""}" "P").
+Definition ex_claims : claims := mkClaims "iss" "sub" ["c"] "" 2000000000 1700000000 0 "" "" "" "" "" "".
+Definition ex_verifier : verifier := mkVerifier "iss" "c" 0 0 0 None None [].
+
+Example check_signature_nonvacuous :
+  check_signature sym_verify [] (KSOpenID (Some [ex_key])) (TCompact ex_entry "P") "P" = Ok "RS256".
+Proof. vm_compute. reflexivity. Qed.
+
+Example find_key_sound_nonvacuous :
+  find_matching_key "" "sig" "RS256" [ex_key2] = FOk ex_key2 /\ exact_kid "" ex_key2 = false.
+Proof. vm_compute. split; reflexivity. Qed.
+
+Example find_key_ambiguous_nonvacuous :
+  exact_keys "" "sig" "RS256" [ex_key; ex_key2] = []
+  /\ 2 <= List.length (loose_keys "" "sig" "RS256" [ex_key; ex_key2]).
+Proof. vm_compute. split; [reflexivity | apply le_n]. Qed.
+
+Example each_verifier_nonvacuous :
+  outcome_claims (run_verifier sym_verify VIDTokenHint ex_verifier (KSOpenID (Some [ex_key]))
+                               (TCompact ex_entry "P") (MidOk "P" ex_claims) 1900000000000000000)
+  = Some (ex_claims, "RS256").
+Proof. vm_compute. reflexivity. Qed.
+
+(* the expired-hint path still hands back claims *)
+Example each_verifier_expired_nonvacuous :
+  run_verifier sym_verify VIDTokenHint ex_verifier (KSOpenID (Some [ex_key]))
+               (TCompact ex_entry "P") (MidOk "P" ex_claims) 2100000000000000000
+  = AcceptExpired ex_claims "RS256" EExpired.
+Proof. vm_compute. reflexivity. Qed.
+
+Example smuggling_nonvacuous :
+  run_verifier sym_verify VAccessToken ex_verifier (KSOpenID (Some [ex_key]))
+               (TJson [ex_entry] "P") (MidOk "EVIL" ex_claims) 1900000000000000000
+  = Reject ESigPayload.
+Proof. vm_compute. reflexivity. Qed.
